@@ -198,5 +198,9 @@ def readLazy : Nat → List (List Bool) → List LazyChunk
 chunks were read; `ItemGetter.__call__` adds the chunk's own start line -/
 def accessLazy (c : LazyChunk) : Option Nat := (firstBad id c.rows).map (· + c.start)
 
+/-- `np.concatenate` of lazily read chunks (`ItemGetter.concatenate`): the buffers are joined, the start line of the FIRST
+operand is kept -/
+def concatLazy (cs : List LazyChunk) : LazyChunk :=
+  { start := (cs.head?.map (·.start)).getD 0, rows := (cs.map (·.rows)).flatten }
 
 end C15
